@@ -27,6 +27,7 @@ const rule = "inputs: (a) every string up to a length bound over the token alpha
 var assumptions = []string{
 	"reference recogniser internal/model/grammar.go transcribes the EBNF of internal/route/README.md; <ident> additionally contains '$' (tree_test.go registers /webapi/special/test@$), <regex> is [a-zA-Z0-9*\\-+._,?()\\[\\]{} \\\\|]",
 	"blanks are exactly U+0020",
+	"a route handed to a routing tree stays the parsed route: its String() afterwards is the canonical form (clause canonical-after-addroute; a tree that took ownership of the syntax tree and rewrote it would trip this clause and no other)",
 }
 
 func TestMain(m *testing.M) {
@@ -211,7 +212,7 @@ func checkString(s string) evid.Outcome {
 				_, _ = route.AddRoute(tree, fresh, nil)
 			}()
 			if got := fresh.String(); got != canon {
-				return fail(out, "canonical", "Parse(%q), added to a routing tree and rendered only then: String() = %q, want %q", s, got, canon)
+				return fail(out, "canonical-after-addroute", "Parse(%q), added to a routing tree and rendered only then: String() = %q, want %q", s, got, canon)
 			}
 		}
 	}
@@ -427,7 +428,9 @@ func spacingNeighbours(s string) []string {
 // checkWithNeighbours checks s, then its spacing neighbours, then s again.
 func checkWithNeighbours(s string) evid.Outcome {
 	out := checkString(s)
-	if out.Violation != "" {
+	if out.Violation != "" || len(s) > 4096 {
+		// (very long inputs are judged on their own, as TestLongInputs does: with
+		// their neighbours one case costs a minute on a busy machine)
 		return out
 	}
 	for _, n := range spacingNeighbours(s) {
